@@ -28,6 +28,8 @@ def tags_of(s1, s2, ts, te):
         t.append('shared-spike')
     if s1 == s2:
         t.append('identical')
+    if any(x.denominator >= 2 ** 20 for x in list(s1) + list(s2)):
+        t.append('near-equal-times')
     return t
 
 
@@ -68,6 +70,31 @@ def random_train(rng, ts, te, nmax=8, den=8, mode=None):
     return sorted(Fr(p, den) for p in pts)
 
 
+EPS_NEAR = Fr(1, 2 ** 20)
+
+
+def nearify(rng, s, ts, te, other=None):
+    """add spikes that are 2^-20 away from an edge / from a spike of the other train / from an own
+    spike (a tolerant float comparison such as np.isclose would treat them as equal)"""
+    pts = set(s)
+    r = rng.random()
+    if r < 0.35:
+        pts.add(te - EPS_NEAR)
+    elif r < 0.6:
+        pts.add(ts + EPS_NEAR)
+    elif r < 0.8 and other:
+        x = rng.choice(list(other))
+        y = x + rng.choice([1, -1]) * EPS_NEAR
+        if ts <= y <= te:
+            pts.add(y)
+    elif pts:
+        x = rng.choice(sorted(pts))
+        y = x + rng.choice([1, -1]) * EPS_NEAR
+        if ts <= y <= te:
+            pts.add(y)
+    return sorted(pts)
+
+
 def random_pair(rng, den=8):
     ts = Fr(rng.choice([0, 0, -3, 5, 1]), 1) + rng.choice([0, H, Fr(1, 4)])
     te = ts + rng.choice([2, 4, 6, 10]) + rng.choice([0, H])
@@ -79,6 +106,11 @@ def random_pair(rng, den=8):
         s2 = sorted(set(s2) | set(rng.sample(s1, min(len(s1), rng.randint(1, 3)))))
     elif r < 0.22:
         s2 = list(s1)
+    if rng.random() < 0.12:
+        if rng.random() < 0.5:
+            s1 = nearify(rng, s1, ts, te, s2)
+        else:
+            s2 = nearify(rng, s2, ts, te, s1)
     return s1, s2, ts, te
 
 
@@ -282,6 +314,9 @@ def random_list(rng, nmin=2, nmax=5, den=4, degenerate=0.3):
         else:
             s = random_train(rng, ts, te, nmax=6, den=den)
         L.append(s)
+    if rng.random() < 0.12:
+        k = rng.randrange(len(L))
+        L[k] = nearify(rng, L[k], ts, te, L[(k + 1) % len(L)])
     return L, ts, te
 
 
